@@ -97,6 +97,7 @@ type ContractSet struct {
 	Axioms       []*Clause
 	Stable       []string // "T.f"
 	JSPreserved  []string // "T.f"
+	Extern       map[string]bool
 	All          []*Contract
 	Files        []string
 	Errors       []string
@@ -221,6 +222,17 @@ func parseContractFile(cs *ContractSet, path, pkgDir string) {
 			f := strings.Fields(strings.TrimPrefix(l, "createinv "))
 			if len(f) == 2 {
 				cs.CreateInv = append(cs.CreateInv, [3]string{pkgDir, f[0], f[1]})
+			}
+		case strings.HasPrefix(l, "extern "):
+			// extern <qualified function> ... : assumed contract of a function outside the verified
+			// packages (standard library, sibling package): it reads its arguments and returns a
+			// value, it does not touch any state this engine models
+			for _, f := range strings.Fields(strings.TrimPrefix(l, "extern ")) {
+				if cs.Extern == nil {
+					cs.Extern = map[string]bool{}
+				}
+				cs.Extern[f] = true
+				cs.Scan = append(cs.Scan, fmt.Sprintf("assumed: %s does not modify modelled state; its result is unconstrained (%s:%d)", f, filepath.Base(path), ln+1))
 			}
 		case strings.HasPrefix(l, "stable "):
 			for _, f := range strings.Fields(strings.TrimPrefix(l, "stable ")) {
